@@ -6,6 +6,8 @@
      [ev |-> "rename", a, b]  [ev |-> "open", a, fd, wr, creat, trunc]  [ev |-> "write", fd, data]
      [ev |-> "read", fd, n]   [ev |-> "copy", fd, fd2, n]  [ev |-> "close", fd]  [ev |-> "unlink", a]
      [ev |-> "mkdir", a]      [ev |-> "symlink", a, b]     [ev |-> "meta", a]    (chmod/chown/utimens)
+     [ev |-> "pwrite", fd, data, n]  [ev |-> "ftrunc", fd, n]  [ev |-> "trunc", a, n]  [ev |-> "link", a, b]  [ev |-> "rmdir", a]
+                                         (not issued by the unchanged command; modelled so that a changed one is judged, not skipped)
      [ev |-> "snap", final, fuzzy]       the tree found on disk when the process had ended or had been
                                          killed (fuzzy: another thread was inside a system call at the kill)
 
@@ -75,6 +77,11 @@ Apply(f, e) ==
     [] e.ev = "unlink"  -> DoUnlink(f, e.a)
     [] e.ev = "mkdir"   -> DoMkdir(f, e.a)
     [] e.ev = "symlink" -> DoSymlink(f, e.b, e.a)
+    [] e.ev = "pwrite"  -> DoPWrite(f, e.fd, e.data, e.n)
+    [] e.ev = "ftrunc"  -> DoFTruncate(f, e.fd, e.n)
+    [] e.ev = "trunc"   -> DoTruncate(f, e.a, e.n)
+    [] e.ev = "link"    -> DoLink(f, e.a, e.b)
+    [] e.ev = "rmdir"   -> DoRmdir(f, e.a)
     [] OTHER            -> f
 
 Init == l = 1 /\ fs = EmptyFs /\ W = <<>>
